@@ -93,7 +93,7 @@ var (
 	c02Names    = [][]string{{"/web"}, {"/web2"}, {"/db"}, {"db"}, {"/"}, {}, {"/web", "/alias"}, {"//x"}}
 	c02Images   = []string{"nginx", "nginx:1", "redis", ""}
 	c02States   = []string{"running", "exited"}
-	c02Keys     = []string{"app", "com.docker.compose.service", "a.b", "tier", "9lives", "é", "container-state", "x y", "app2"}
+	c02Keys     = []string{"app", "msg", "com.docker.compose.service", "a.b", "tier", "9lives", "é", "container-state", "x y", "app2"}
 	c02Values   = []string{"x", "y", "xy", "", "web", "a.b"}
 	c02Builtins = []string{"container", "container_id", "container_name", "container_image", "container_image_id",
 		"container_command", "container_created", "container_state", "container_status"}
@@ -257,8 +257,18 @@ func c02Impl(t c02Case) Sexp {
 				return L(A("err"), A("foreign-line"), B(e.V))
 			}
 			ls := map[string]string{}
+			// the line itself is the label msg of every entry, unless the container carries a Docker label of that
+			// name, which overrides it like any other attribute
+			ownMsg := false
+			if ci >= 0 && ci < len(t.Inv) {
+				for _, kv := range t.Inv[ci].Labels {
+					if sanitisedKey(kv[0]) == "msg" {
+						ownMsg = true
+					}
+				}
+			}
 			for k, v := range s.Stream.Value {
-				if k != "msg" {
+				if k != "msg" || ownMsg {
 					ls[k] = v
 				}
 			}
